@@ -1,5 +1,6 @@
-import Gaftools.Props.C01a
-import Gaftools.Props.C03s
+import Gaftools.Props.C01b
+import Gaftools.Props.TieA
+#print axioms Gaftools.TieA.mergeNodes_gen_eq_model
 #print axioms Gaftools.C01.contigSlice_node
 #print axioms Gaftools.C01.contigSlice_append
 #print axioms Gaftools.C01.mergeGo_spell
@@ -7,6 +8,9 @@ import Gaftools.Props.C03s
 #print axioms Gaftools.C01.toStable_isSome
 #print axioms Gaftools.C01.toStable_plen
 #print axioms Gaftools.C01.toStable_cigar
+#print axioms Gaftools.C01.ref_tiled
+#print axioms Gaftools.C01.toUnstable_bare
+#print axioms Gaftools.C01.toUnstable_ivs
 #print axioms Gaftools.C03.overlapCase_iff
 #print axioms Gaftools.C03.searchIv_window
 #print axioms Gaftools.C03.searchIv_isSome
